@@ -14,17 +14,19 @@ import pv
 
 MODEL = ("site A 1 2\nsite B 1 2\naddCoulombS A 2 -0.75\naddLevel B 0.25\naddHopping4 A B 0.5\nbeta 4\n")
 QUADS = [(0, 1, 0, 1), (0, 2, 0, 2), (1, 3, 1, 3), (0, 3, 0, 3), (2, 3, 2, 3), (0, 0, 1, 1)]   # the last one vanishes (S_z)
-FREQS = [(0, 0, 0), (1, -2, 1), (2, 1, 0)]
+# 37 triples: a table longer than 32 entries whose length is not divisible by 2..6 threads (static partitions with a remainder)
+FREQS = [(0, 0, 0), (1, -2, 1), (2, 1, 0)] + [((7 * k) % 9 - 4, (5 * k) % 7 - 3, (3 * k) % 5 - 2) for k in range(34)]
+ATOM = "site A 1 2\naddCoulombS A 1 -0.5\nbeta 10\n"      # 4 blocks: fewer dispatch jobs than ranks for P >= 5
 
 
 def hexc(a, b):
     return complex(float.fromhex(a), float.fromhex(b))
 
 
-def launch(h, P, cmds, threads=1, timeout=60, seed=None):
+def launch(h, P, cmds, threads=1, timeout=60, seed=None, model=None):
     d = tempfile.mkdtemp(prefix="c06-", dir=pv.BUILD)
     try:
-        open(os.path.join(d, "in.txt"), "w").write("model\n" + MODEL + "end\n" + cmds)
+        open(os.path.join(d, "in.txt"), "w").write("model\n" + (model or MODEL) + "end\n" + cmds)
         env = {"OMP_NUM_THREADS": str(threads)}
         if seed is not None:
             env["POMEROL_VERIF_DELAY_SEED"] = str(seed)
@@ -118,7 +120,7 @@ def run(chk):
                 chk.tie_broken("h_c06 reference run", "single-rank reference failed rc=%s %s" % (rc, err))
                 continue
         ref = refs[key]
-        threads = rng.choice([1, 4]) if quick else rng.choice([1, 2, 16 // max(1, min(P, 16))or 1])
+        threads = rng.choice([1, 3, 4, 5]) if quick else rng.choice([1, 2, 3, 5, 7, max(1, 16 // P)])
         seed = rng.randint(1, 10 ** 6)
         rc, ranks, err = launch(h, P, cmds_for(nc, split, clear), threads=threads, timeout=45 if quick else 90, seed=seed)
         sig = "P=%d nc=%d %s %s %s" % (P, nc, "split" if split else "nosplit", "purge" if clear else "keep",
@@ -176,6 +178,29 @@ def run(chk):
                 for k in ref["chieval"]:
                     if not close(o["chieval"].get(k, []), ref["chieval"][k]):
                         viol("direct evaluation differs", "rank %d: evaluating a directly computed TwoParticleGF differs from the single-rank run" % r)
+    # more ranks than jobs in a dispatch step: the Hubbard atom has 4 Hamiltonian blocks
+    acmd = "ham\ngf 0 1 0 1\ngf 0 0 0 2\nc2 1 0 1 0 1 0 1 3 0 0 0 1 -2 1 2 1 0\nchi 0 1 0 1 0 2 0 0 0 1 -2 1\n"
+    rc, ranks, err = launch(h, 1, acmd, threads=1, timeout=120, model=ATOM)
+    aref = parse(ranks[0])
+    for P in ([5, 6] if quick else [5, 6, 7, 9, 12, 16]):
+        seed = rng.randint(1, 10 ** 6)
+        rc, ranks, err = launch(h, P, acmd, threads=1, timeout=45, seed=seed, model=ATOM)
+        chk.case("atom %d" % P, "P=%d atom (ranks > jobs)" % P, True, None)
+        conf = {"P": P, "model": ATOM, "commands": acmd, "threads": 1, "delay_seed": seed, "harness": "h_c06"}
+        if rc == 124:
+            if "hang-atom" not in reported:
+                reported.add("hang-atom")
+                chk.violation("hang [ranks > jobs]", "the run does not terminate with %d ranks on a model with 4 Hamiltonian blocks" % P, conf)
+            continue
+        for r in sorted(ranks):
+            o = parse(ranks[r])
+            bad = (not o["done"]) or any(not close(o["eig"].get(b, []), aref["eig"][b], 1e-12) for b in aref["eig"]) \
+                or any(not close(o["g"].get(k, []), aref["g"][k]) for k in aref["g"]) \
+                or any(not close(o["table"].get(k, []), aref["table"][k]) for k in aref["table"]) \
+                or any(not close(o["eval"].get(k, []), aref["eval"][k]) for k in aref["eval"])
+            if bad and "differs-atom" not in reported:
+                reported.add("differs-atom")
+                chk.violation("results differ [ranks > jobs]", "rank %d of %d differs from the single-rank run on the Hubbard atom" % (r, P), conf)
     chk.extra["delay_hook"] = "POMEROL_VERIF_DELAY_SEED is passed to every launch; it has effect only when the hook commit is present in /repo"
     chk.rule = ("configurations (ranks P, number of 2PGF components, split/unsplit, purge/keep, OpenMP threads, delay seed) on a two-site "
                 "model; each launch is compared rank by rank with the single-rank single-thread run of the same commands; non-trivial = P > 1; "
@@ -190,7 +215,7 @@ def replay(chk, path):
     import json
     r = json.load(open(path))["replay"]
     h = pv.build_harness("h_c06")
-    rc, ranks, err = launch(h, r["P"], r["commands"], threads=r["threads"], timeout=60, seed=r.get("delay_seed"))
+    rc, ranks, err = launch(h, r["P"], r["commands"], threads=r["threads"], timeout=60, seed=r.get("delay_seed"), model=r.get("model"))
     print("exit", rc, err)
     for k in ranks:
         for t in ranks[k]:
